@@ -307,11 +307,128 @@ def gen_propagator(rng, idx):
     return {'kind': 'propagator', 'site': {'type': 'SpinHalf', 'conserve': None}, 'L': L, 'A': {'terms': terms}, 'dts': dts}
 
 
+def gen_propagator2(rng, idx):
+    """propagators of MPOs in every documented form of the markers: one MPOGraph, a sum A + B by MPO.__add__ (IdR markers -1), the same
+    tensors with the IdR markers written as negative indices; finite chains (whole chain and a sub-window between the markers of two inner
+    bonds) and infinite MPOs on a window"""
+    finite = idx % 2 == 0
+    form = ['sum', 'negmarkers', 'single'][(idx // 2) % 3]
+    if finite:
+        L = rng.choice([3, 4, 5])
+        N, cell, first_sites = L, None, range(L)
+    else:
+        L = rng.choice([1, 2])
+        N, cell, first_sites = 4, L, range(L)
+    inside = lambda k: (k < L) if finite else (k < N)
+    hop, zz, field, zz2 = [], [], [], []
+    for i in first_sites:
+        if inside(i + 1):
+            J = round(rng.uniform(0.5, 1.5), 3)
+            hop.append([[['Sp', i], ['Sm', i + 1]], [J, 0]])
+            hop.append([[['Sm', i], ['Sp', i + 1]], [J, 0]])
+            zz.append([[['Sz', i], ['Sz', i + 1]], [round(rng.uniform(-1, 1), 3), 0]])
+        field.append([[['Sx', i]], [round(rng.uniform(-1, 1), 3), 0]])
+        if inside(i + 2) and L != 3:
+            zz2.append([[['Sz', i], ['Sz', i + 2]], [round(rng.uniform(-1, 1), 3), 0]])
+    if rng.random() < 0.5:
+        zz2 = []
+    partA, partB = (hop + zz2, zz + field) if rng.random() < 0.5 else (hop + field, zz + zz2)
+    if not partB or not partA:
+        partA, partB = hop, zz + field + zz2
+    t0 = rng.choice([0.08, 0.05])
+    imag = rng.random() < 0.5
+    dts = [[0, -t0 / 2 ** n] if imag else [-t0 / 2 ** n, 0] for n in range(3)]
+    case = {'kind': 'propagator', 'site': {'type': 'SpinHalf', 'conserve': None}, 'L': L, 'N': N, 'bc': 'finite' if finite else 'infinite',
+            'form': form, 'A': {'terms': partA + partB}, 'split': len(partA), 'dts': dts}
+    if finite:
+        a = rng.randint(0, L - 2)
+        n = rng.randint(2, L - a)
+        if a == 0 and n == L:
+            a, n = 1, L - 1
+        case['window'] = [a, n]
+    return case
+
+
 RANGE_TAGS = [(a, b) for a in ('known', 'none', 'inf') for b in ('known', 'none', 'inf')]
 K_TTL_NEG = 'C11:to_TermList:result-with-negative-IdR-marker:no-terms'
 
 
-def gen_results(rng, idx):
+FLAG_COMBOS = [(False, True), (True, False), (False, False), (True, True)]
+
+
+def hc_terms(kind, terms, cell=None):
+    """the Hermitian conjugates of the terms (for an infinite MPO translated so that they start in the first unit cell)"""
+    out = []
+    for t, st in terms:
+        ht, hs = hc_term(kind, t, st)
+        if cell is not None:
+            sh = (min(k for _, k in ht) // cell) * cell
+            ht = [[o, k - sh] for o, k in ht]
+        out.append([ht, hs])
+    return out
+
+
+def gen_hc(hr, idx, kind, finite, L, N, cell, conserve):
+    """operands P, Q for the documented flag explicit_plus_hc ("the Hermitian conjugate is computed at runtime, rather than saved in the
+    MPO"): the flag is drawn independently per operand (all four combinations in turn), the stored terms are Hermitian or NOT
+    (one-directional hopping with a complex amplitude, complex non-symmetric couplings); Q is P rewritten (in full / as the conjugate
+    half / reordered) or differs from it in one place, so that the operands share terms"""
+    fp, fq = FLAG_COMBOS[(idx // 9) % 4]
+    spin = kind == 'SpinHalf'
+    nsite = L if finite else N
+    maxr = (L - 1) if finite else 2
+    herm = hr.random() < 0.3
+    base = gen_terms(hr, kind, nsite, conserve, False, herm, hr.randint(1, 2) if herm else hr.randint(1, 3), maxrange=maxr, cell=cell)
+    if not herm:
+        i = hr.randint(0, L - 2) if finite else hr.randint(0, L - 1)
+        rr = hr.randint(1, max(1, min(maxr, L - 1 - i))) if finite else hr.randint(1, 2)
+        hop = [['Sp', i], ['Sm', i + rr]] if spin else [['Cd', i], ['C', i + rr]]
+        amp = [round(hr.uniform(0.5, 1.5), 3), round(hr.choice([-1, 1]) * hr.uniform(0.3, 1.0), 3)]
+        base.insert(hr.randrange(len(base) + 1), [hop, amp])
+    modes = ['perturb', 'perturb']
+    if fp != fq:
+        modes += ['expand', 'expand-perturbed', 'expand-perturbed']
+    elif fp and fq:
+        modes += ['hc-stored']
+    else:
+        modes += ['dagger']
+    mode = hr.choice(modes)
+    P = base
+    if mode == 'perturb':
+        Q, how, _ = perturb(hr, kind, base, L, conserve, False, cell=cell)
+        mode = 'perturb:' + how
+    elif mode.startswith('expand'):
+        full = copy.deepcopy(base) + hc_terms(kind, base, cell)
+        if mode == 'expand-perturbed':
+            k = hr.randrange(len(base))         # one half of a conjugate pair only: a non-Hermitian difference
+            full[k] = [full[k][0], [full[k][1][0] + hr.choice([1e-3, 0.1, 1.0]), full[k][1][1]]]
+        P, Q = (base, full) if fp else (full, base)     # the operand without the flag is written in full
+    else:
+        Q = hc_terms(kind, base, cell)
+    tags = lambda: hr.choice(['known', 'known', 'none', 'inf'])
+    hows = lambda: hr.choice(['ctor', 'wflat'])
+    out = {'mode': mode, 'stored_hermitian': herm,
+           'P': {'terms': P, 'plus_hc': fp, 'range': tags(), 'how': hows()}, 'Q': {'terms': Q, 'plus_hc': fq, 'range': tags(), 'how': hows()}}
+    if spin:
+        for nm in ('P', 'Q'):
+            tl = out[nm]['terms']
+            if any(len(set(k for _, k in t)) < len(t) for t, _ in tl):
+                continue            # (several operators on one site: products contain the identity)
+            prefs = []
+            for t, _ in tl[:3]:
+                for tt in (t, hc_term(kind, t, [0, 0])[0]):
+                    tt = sorted(tt, key=lambda x: x[1])         # (spin operators on distinct sites commute)
+                    ops_ = ['Id'] * (tt[-1][1] - tt[0][1] + 1)
+                    for o, k in tt:
+                        ops_[k - tt[0][1]] = o
+                    if [tt[0][1], ops_] not in prefs:
+                        prefs.append([tt[0][1], ops_])
+            prefs.append([0, ['Sz', 'Sp']] if conserve is None else [0, ['Sz', 'Id', 'Sz']])
+            out[nm]['prefactors'] = [p_ for p_ in prefs if finite is False or p_[0] + len(p_[1]) <= L]
+    return out
+
+
+def gen_results(rng, idx, hrng=None):
     """operands X (short range), Y (contains one long-range coupling; Hermitian or not), Y2 (Y rewritten, or differing in the
     long-range coupling only), Z (short range) whose documented meta-data `max_range` is known / None (given by W tensors) / inf in
     every combination; RESULTS of sums in both orders, daggers, plus_identity and sums of sums, finite and infinite.  The long
@@ -386,6 +503,8 @@ def gen_results(rng, idx):
             case['state'] = {'kind': 'rue', 'p_state': p}
     else:
         case['psi_L'] = L if rng.random() < 0.5 else 2 * L
+    if hrng is not None:
+        case['hc'] = gen_hc(hrng, idx, kind, finite, L, N, cell, conserve)
     return case
 
 
@@ -943,6 +1062,106 @@ def check_results(ctx, case, r):
             probs.append((key_, '%s.is_equal(%s) is True although the operators differ (relative distance %.2e on the window) in a '
                           'coupling of range %d <= 3L-1 (%s = %s, %s = %s; max_range of the operands %s; claimed max_range of %s: %s)'
                           % (a, b, rel, case['long']['range'], a, case['results'][a], b, case['results'][b], tags, a, r['results'][a].get('max_range'))))
+    if case.get('hc') and 'hc' in r:
+        hc, rh = case['hc'], r['hc']
+        dref, flag, stored = {}, {}, {}
+        for nm in ('P', 'Q'):
+            stored[nm] = dense_terms_fast(dense, hc[nm]['terms'], infinite_cell=cell)
+            flag[nm] = bool(hc[nm]['plus_hc'])
+            dref[nm] = stored[nm] + stored[nm].conj().T if flag[nm] else stored[nm]
+        hdesc = 'explicit_plus_hc operands (%s; P: flag=%s, max_range %s; Q: flag=%s, max_range %s)' % (
+            hc['mode'], flag['P'], hc['P']['range'], flag['Q'], hc['Q']['range'])
+        for nm in ('P', 'Q'):
+            o = rh['operands'].get(nm, {})
+            ref = dref[nm]
+            scale = max(1.0, float(np.max(np.abs(ref))))
+            tol = TOL * scale
+            what = '%s: %s (%s)' % (hdesc, nm, 'stored half + flag' if flag[nm] else 'written in full')
+            if 'HC/' + nm not in mats:
+                continue
+            if o.get('flag') != flag[nm]:
+                probs.append(('C11:hc:flag', '%s: the MPO has explicit_plus_hc=%s' % (what, o.get('flag'))))
+            if maxdiff(mats['HC/' + nm], ref) > tol:
+                probs.append(('C11:hc:dense', '%s: W tensors (+ h.c.) differ from the dense operator by %.3e' % (what, maxdiff(mats['HC/' + nm], ref))))
+                continue
+            if 'HC/dagger/' + nm in mats and maxdiff(mats['HC/dagger/' + nm], ref.conj().T) > tol:
+                probs.append(('C11:hc:dagger', '%s: dagger() (flag of the result: %s) differs from the conjugate of the dense operator by %.3e'
+                              % (what, o.get('dagger_flag'), maxdiff(mats['HC/dagger/' + nm], ref.conj().T))))
+            if 'HC/ed/' + nm in mats and maxdiff(mats['HC/ed/' + nm], ref) > tol:
+                probs.append(('C11:hc:ExactDiag', '%s: ExactDiag.from_H_mpo differs from the dense operator by %.3e' % (what, maxdiff(mats['HC/ed/' + nm], ref))))
+            herm_defect = maxdiff(ref, ref.conj().T)
+            if 'is_hermitian' in o and float(np.max(np.abs(ref))) > 1e-9:
+                if herm_defect <= tol and not o['is_hermitian']:
+                    probs.append(('C11:hc:is_hermitian:false-negative', '%s: the operator is Hermitian but is_hermitian() is False' % what))
+                if herm_defect > 1e-4 * scale and o['is_hermitian']:
+                    probs.append(('C11:hc:is_hermitian:false-positive', '%s: the operator is not Hermitian (defect %.2e) but is_hermitian() is True'
+                                  % (what, herm_defect)))
+            if finite and psi is not None:
+                phi = ref @ psi
+                ev = np.vdot(psi, phi)
+                if 'expectation_value' in o and abs(complex(*o['expectation_value']) - ev) > 1e-9 * scale:
+                    probs.append(('C11:hc:expectation_value', '%s: expectation_value = %s, dense <psi|O|psi> = %s' % (what, o['expectation_value'], ev)))
+                var = np.vdot(psi, ref @ phi) - ev ** 2
+                if 'variance' in o and abs(complex(*o['variance']) - var) > 1e-8 * scale ** 2:
+                    probs.append(('C11:hc:variance', '%s: variance = %s, dense <O^2> - <O>^2 = %s (<O> = %s)' % (what, o['variance'], var, ev)))
+                if 'variance_raises' in o and not flag[nm]:
+                    probs.append(('C11:hc:variance', '%s: variance raised %s without the flag' % (what, o['variance_raises'])))
+            elif not finite:
+                dens = density(hc[nm]['terms'])
+                if flag[nm]:
+                    dens = dens + np.conj(dens)
+                for q in ('expectation_value', 'expectation_value_power', 'expectation_value_TM'):
+                    if q in o and abs(complex(*o[q]) - dens) > 1e-7 * scale:
+                        probs.append(('C11:hc:' + q, '%s: %s = %s, density of the terms (+ h.c.) in the product state = %s' % (what, q, o[q], dens)))
+            if 'prefactors' in o and not flag[nm]:
+                # (prefactor / to_TermList read the stored tensors; compared for operands written in full)
+                for (i_, ops_), got in zip(hc[nm]['prefactors'], o['prefactors']):
+                    Pm = dense.tensor({i_ + n_: o_ for n_, o_ in enumerate(ops_)})
+                    exp_ = np.trace(Pm.conj().T @ ref) / np.trace(Pm.conj().T @ Pm)
+                    if abs(complex(*got) - exp_) > 1e-9 * scale:
+                        probs.append(('C11:hc:prefactor', '%s: prefactor(%d, %s) = %s, trace formula gives %s' % (what, i_, ops_, got, exp_)))
+        norm2 = {nm: float(np.sum(np.abs(dref[nm]) ** 2)) for nm in dref}
+        for key, o in rh['pairs'].items():
+            a, b = key.split(':')
+            if 'HC/' + a not in mats or 'HC/' + b not in mats:
+                continue
+            A, B = dref[a], dref[b]
+            ov = np.trace(A.conj().T @ B)
+            dist = float(np.sum(np.abs(A - B) ** 2))
+            big = max(1.0, norm2[a], norm2[b])
+            what = '%s: %s.%%s(%s) on %d sites' % (hdesc, a, b, N)
+            if 'overlap' in o and abs(complex(*o['overlap']) - ov) > 1e-8 * big:
+                probs.append(('C11:hc:overlap', (what % 'overlap') + ' = %s, dense Tr[A^dagger B] = %s' % (o['overlap'], ov)))
+            if 'distance' in o and abs(complex(*o['distance']) - dist) > 1e-7 * big:
+                probs.append(('C11:hc:distance', (what % 'distance') + ' = %s, dense |A - B|^2 = %s' % (o['distance'], dist)))
+            if 'is_equal' in o and norm2[a] + norm2[b] > 1e-12:
+                rel = dist / (norm2[a] + norm2[b])
+                if rel < 1e-13 and not o['is_equal']:
+                    probs.append(('C11:hc:is_equal:false-negative', (what % 'is_equal') + ' is False for the same operator'))
+                if rel > 1e-8 and o['is_equal']:
+                    probs.append(('C11:hc:is_equal:false-positive', (what % 'is_equal') + ' is True although the operators differ (relative distance %.2e)' % rel))
+        for key, o in rh['add'].items():
+            a, b = key.split(':')
+            what = '%s: %s + %s' % (hdesc, a, b)
+            if 'raises' in o:
+                if flag[a] == flag[b]:
+                    probs.append(('C11:hc:add', '%s raised %s for equal flags' % (what, o['raises'])))
+                continue
+            nm_ = 'HC/add/' + key
+            if nm_ in mats:
+                ref = dref[a] + dref[b]
+                scale = max(1.0, float(np.max(np.abs(ref))))
+                if maxdiff(mats[nm_], ref) > TOL * scale:
+                    probs.append(('C11:hc:add', '%s (flag of the sum: %s) differs from the sum of the dense operators by %.3e'
+                                  % (what, o.get('flag'), maxdiff(mats[nm_], ref))))
+                elif float(np.max(np.abs(ref))) > 1e-9:
+                    hd = maxdiff(ref, ref.conj().T)
+                    if 'is_hermitian' in o and ((hd <= TOL * scale and not o['is_hermitian']) or (hd > 1e-4 * scale and o['is_hermitian'])):
+                        probs.append(('C11:hc:add:is_hermitian', '%s: is_hermitian() = %s, Hermiticity defect of the dense sum %.2e' % (what, o['is_hermitian'], hd)))
+                    if o.get('is_equal_rev') is False:
+                        probs.append(('C11:hc:add:is_equal', '%s: is_equal(%s + %s) is False' % (what, b, a)))
+        ctx.count('results_plus_hc', [case['seed'], hc], nontrivial=True,
+                  sample={'bc': case['bc'], 'L': L, 'mode': hc['mode'], 'flags': [flag['P'], flag['Q']], 'stored_hermitian': hc['stored_hermitian']})
     for nm, e in r['errors'].items():
         probs.append(('C11:results:raises:' + nm.split(':')[0], 'operation %s raised %s' % (nm, e)))
     ctx.count('results', case, nontrivial=True, sample={'L': L, 'bc': case['bc'], 'site': case['site'], 'long': case['long'],
@@ -954,6 +1173,9 @@ def check_results(ctx, case, r):
             ctx.fail('oracle', text, label, match_key=key)
 
 
+K_UI_NEG = 'C11:make_U_I:negative-IdR-marker:markers-of-U-negative'
+
+
 def check_propagator(ctx, case, r):
     label = {'stream': 'propagator', 'case': case}
     if 'runner_error' in r:
@@ -961,38 +1183,59 @@ def check_propagator(ctx, case, r):
         return
     ops, mats = load(r)
     L = r['L']
-    geo = O.Geometry(chain_info(L, L, True))
+    finite = case.get('bc', 'finite') == 'finite'
+    N = r.get('N', L)
+    geo = O.Geometry(chain_info(L, N, finite))
     dense = O.Dense(geo, [ops], [r['needs_JW']])
-    H, _ = dense_terms(dense, case['A']['terms'])
+    H, _ = dense_terms(dense, case['A']['terms'], infinite_cell=None if finite else L)
+    form = case.get('form', 'single')
+    desc = '%s %s MPO (L=%d%s)' % (case.get('bc', 'finite'), {'single': 'single-graph', 'sum': 'A + B (MPO.__add__)', 'negmarkers': 'negative-IdR-marker'}[form],
+                                   L, '' if finite else ', window of %d sites' % N)
     if maxdiff(mats['H'], H) > 1e-10:
         ctx.fail('oracle', 'Hamiltonian MPO differs from its terms', label, match_key='C11:propagator:H')
-    w, V = np.linalg.eigh(H)
+    targets = [('', H, 'the whole chain' if finite else 'the window')]
+    if case.get('window'):
+        a, n = case['window']
+        sub = [[[[o_, k - a] for o_, k in t], st] for t, st in case['A']['terms'] if all(a <= k < a + n for _, k in t)]
+        dsub = O.Dense(O.Geometry(chain_info(n, n, True)), [ops], [r['needs_JW']])
+        targets.append(('w', dense_terms(dsub, sub)[0], 'sites %d..%d between the markers IdL[%d] / IdR[%d] of the propagator' % (a, a + n - 1, a, a + n)))
     probs = []
-    for which, power in (('I', 2), ('II', 2), ('Io2', 3), ('IIo2', 3)):
-        errs = []
-        for n, dt in enumerate(case['dts']):
-            nm = 'U%s_%d' % (which, n)
-            if nm not in mats:
-                continue
-            U = (V * np.exp(complex(*dt) * w)) @ V.conj().T
-            errs.append(float(np.linalg.norm(mats[nm] - U, 2)))
-        if os.environ.get('C11_SHOW_ERRS'):
-            print(which, case['dts'][0], errs)
-        if len(errs) == 3:
-            # the error must decrease at least like the documented power of the step (margin 0.6 in the exponent)
-            for a, b in ((errs[0], errs[1]), (errs[1], errs[2])):
-                if a < 1e-13:
+    neg_H = any(x is not None and x < 0 for x in r.get('H_IdR', []))
+    for pre, Href, where in targets:
+        w, V = np.linalg.eigh(Href)
+        for which, power in (('I', 2), ('II', 2), ('Io2', 3), ('IIo2', 3)):
+            errs = []
+            for n, dt in enumerate(case['dts']):
+                nm = 'U%s%s_%d' % (pre, which, n)
+                if nm not in mats:
                     continue
-                slope = np.log2(a / max(b, 1e-300))
-                if slope < power - 0.6:
-                    probs.append(('C11:make_U_%s:order' % which, 'make_U_%s: errors %s for dt, dt/2, dt/4: slope %.2f < documented power %d'
-                                  % (which, ['%.2e' % e for e in errs], slope, power)))
-                    break
-            if errs[0] > 0.08:
-                probs.append(('C11:make_U_%s:error' % which, 'make_U_%s: error %.2e at dt=%s is not small' % (which, errs[0], case['dts'][0])))
+                U = (V * np.exp(complex(*dt) * w)) @ V.conj().T
+                errs.append(float(np.linalg.norm(mats[nm] - U, 2)))
+            if os.environ.get('C11_SHOW_ERRS'):
+                print(which, pre, case['dts'][0], errs)
+            if len(errs) == 3:
+                bads = []
+                # the error must decrease at least like the documented power of the step (margin 0.6 in the exponent)
+                for a_, b_ in ((errs[0], errs[1]), (errs[1], errs[2])):
+                    if a_ < 1e-13:
+                        continue
+                    slope = np.log2(a_ / max(b_, 1e-300))
+                    if slope < power - 0.6:
+                        bads.append(('order', 'errors %s for dt, dt/2, dt/4: slope %.2f < documented power %d' % (['%.2e' % e for e in errs], slope, power)))
+                        break
+                if errs[0] > 0.08:
+                    bads.append(('error', 'error %.2e at dt=%s is not small' % (errs[0], case['dts'][0])))
+                for bad in bads:
+                    key_ = 'C11:make_U_%s:%s' % (which, bad[0])
+                    mk_ = r.get('U_markers', {}).get('I_0')
+                    if which in ('I', 'Io2') and neg_H and mk_ and any(x is not None and x < 0 for x in mk_[0] + mk_[1]):
+                        # known (F118): IdL > IdR for a negative IdR marker, the marker of the propagator becomes IdL - 1 = -1
+                        key_ = K_UI_NEG
+                    probs.append((key_, 'make_U_%s of a %s, contracted over %s: %s (IdR markers of H: %s, markers of U_I: %s)'
+                                  % (which, desc, where, bad[1], r.get('H_IdR'), mk_[0] if mk_ else None)))
     for nm, e in r['errors'].items():
         probs.append(('C11:propagator:raises:' + nm, 'operation %s raised %s' % (nm, e)))
-    ctx.count('propagator', case, nontrivial=True, sample={'L': L, 'dts': case['dts']})
+    ctx.count('propagator', case, nontrivial=True, sample={'L': L, 'dts': case['dts'], 'bc': case.get('bc', 'finite'), 'form': form})
     seen = set()
     for key, text in probs:
         if key not in seen:
@@ -1047,6 +1290,7 @@ def main(ctx):
     n_prop = ctx.pick(16, 120)
     n_ui = ctx.pick(150, 700)
     n_res = ctx.pick(108, 900)
+    n_prop2 = ctx.pick(12, 96)
     if not ctx.proof.ok:
         n_res = int(n_res * 1.5)
     if not ctx.proof.ok:
@@ -1058,14 +1302,17 @@ def main(ctx):
         replay = json.load(open(ctx.replay_in)).get('input') or {}
         if isinstance(replay.get('case'), dict):
             cases.append(replay['case'])
-            n_alg = n_inf = n_prop = n_ui = n_res = 0
+            n_alg = n_inf = n_prop = n_ui = n_res = n_prop2 = 0
     cases += [gen_algebra(rng, i) for i in range(n_alg)]
     cases += [gen_infinite(rng, i) for i in range(n_inf)]
     cases += [gen_propagator(rng, i) for i in range(n_prop)]
     cases += [gen_ui(rng, i) for i in range(n_ui)]
     import random as _random
     rrng = _random.Random(ctx.seed * 7919 + 1111)          # own generator: the streams above are unchanged
-    cases += [gen_results(rrng, i) for i in range(n_res)]
+    prng = _random.Random(ctx.seed * 4999 + 3333)
+    cases += [gen_propagator2(prng, i) for i in range(n_prop2)]
+    hrng = _random.Random(ctx.seed * 6007 + 2222)           # (own generator again: the draws of the results stream are unchanged)
+    cases += [gen_results(rrng, i, hrng) for i in range(n_res)]
     nchunk = common.NPROC
     order = list(range(len(cases)))
     chunks = [order[i::nchunk] for i in range(nchunk)]
@@ -1131,6 +1378,12 @@ def main(ctx):
         'non-Hermitian coupling always lies inside the sites range(3 L) that is_equal documents for an unknown range; to_TermList is compared after '
         'sort_legcharges() (before: known finding F117-C11) and not after plus_identity with beta != 1 (to_TermList starts every term with weight 1); '
         'a multiple of the identity is not counted as a term',
+        'C11 explicit_plus_hc: an MPO with the flag denotes (contraction of the W tensors) + h.c. (documented: "the Hermitian conjugate is computed '
+        'at runtime, rather than saved in the MPO"); variance / plus_identity may raise NotImplementedError and __add__ ValueError for different flags '
+        '(as documented by the messages); prefactor and to_TermList read the stored tensors only and are compared for operands without the flag; '
+        'overlap / distance of infinite MPOs are taken on the explicit window num_sites = N and compared with the dense operators on that window',
+        'C11 propagators on a window: the contraction of U between the markers IdL = IdR of two bonds is compared with exp(dt H_window), H_window = '
+        'the terms inside the window (error O(dt^2) / O(dt^3) for the 2-step scheme)',
         'C11 model: W entries are decomposed into an orthogonal basis of named operators (Id, Sp, Sm, Sz / Id, JW, C, Cd) with Gaussian-integer '
         'coefficients; operators are formal words over these names',
         'C11 oracle only (not modelled in Coq): expectation values, variance, overlap/distance, is_equal/is_hermitian, prefactor, apply* and '
@@ -1147,5 +1400,11 @@ RULE = ('algebra: finite MPOs (L <= 5; spin-1/2, fermions; with/without charges)
         'results: sums in both orders / daggers / plus_identity / sums of sums of operands whose max_range is known, None (given by W tensors) or inf '
         'in all 9 combinations, one operand with a coupling longer than the known range of the other, finite (L 4-6) and infinite (L 1-3): claimed '
         'max_range of every result, is_equal, is_hermitian, to_TermList, expectation values (default / max_range / power / TM), variance of the RESULT; '
-        'propagator: make_U_I / make_U_II at dt, dt/2, dt/4; c11_make_U_I: finite H (L <= 5, term lists / explicit graphs in and out of '
+        'results_plus_hc (inside every results case): operands P, Q with the flag explicit_plus_hc drawn independently (all four combinations; '
+        'stored half + flag vs. written in full; stored terms Hermitian or not: one-directional hopping with a complex amplitude, complex couplings; '
+        'Q = P rewritten / expanded / conjugate half / differing in one place; max_range known / None / inf): dense operator, dagger, is_hermitian, '
+        'ExactDiag, expectation values, variance (complex), prefactor, overlap / distance / is_equal in both operand orders and of each operand with '
+        'itself, P + Q and Q + P; '
+        'propagator: make_U_I / make_U_II at dt, dt/2, dt/4 of finite chains (single graph; sum A + B of MPO.__add__; negative IdR markers; whole '
+        'chain and a sub-window between the markers of inner bonds) and of infinite MPOs on a window; c11_make_U_I: finite H (L <= 5, term lists / explicit graphs in and out of '
         'standard sum form, exact strengths, permuted virtual indices) x Gaussian-integer dt; non-trivial when the operator is not zero.')
